@@ -21,14 +21,19 @@ type C19Case struct {
 	Code   string `json:"code"`   // concatenation of the contents of its fenced blocks
 	Blocks int    `json:"blocks"` // number of fenced blocks
 	// error arm: an illegal token was injected at ErrLine:ErrCol of the markdown file (0 = none)
-	ErrLine  int      `json:"err_line"`
-	ErrCol   int      `json:"err_col"`
-	ErrBlock int      `json:"err_block"`
-	Flags    []string `json:"flags"`
-	Rich     bool     `json:"rich"`   // prose before a block has multi-byte runes or tabs
-	Inline   bool     `json:"inline"` // some prose shares a line with a fence
-	CRLF     bool     `json:"crlf"`   // CR LF line ends
+	ErrLine     int      `json:"err_line"`
+	ErrCol      int      `json:"err_col"`
+	ErrBlock    int      `json:"err_block"`
+	Flags       []string `json:"flags"`
+	Rich        bool     `json:"rich"`                    // prose before a block has multi-byte runes or tabs
+	Inline      bool     `json:"inline"`                  // some prose shares a line with a fence
+	CRLF        bool     `json:"crlf"`                    // CR LF line ends
+	File        string   `json:"file,omitempty"`          // name of the markdown file ("" = g.md)
+	EndsInFence bool     `json:"ends_in_fence,omitempty"` // the closing fence is the end of the file
 }
+
+// mdNames: the property speaks of any file whose name ends in .md
+var mdNames = []string{"g.md", "g.md", "g.md", "g.v1.md", "a.b.c.md", "x.bnf.md", "docs.d/g.md", "g-1_2.md", "README.md", "é.md", "my grammar.md"}
 
 var proseWords = []string{"Grammar", "for", "the", "calculator:", "`tok`", "``x``", "é世界", "naïve", "\t", "tab\tbed", "1.", "#", "##", "* item", "> quote", "'a'", "\"s\"", "A : b ;", "<< x >>", "/* c */", "// c", "$", "|", "\r", "—", "𝔘", "~~~", "`", "a\u00a0b", "\u3000", "\f", "\v", "x\u0085y", "\u2028", "``", "`code"}
 
@@ -185,13 +190,24 @@ func genC19(t *rapid.T) C19Case {
 		emit("\n", true)
 	}
 	emit("```", false)
-	if ip := inlineProse(t, true); ip != "" {
-		emit(ip, false)
-		c.Inline = true
+	switch rapid.IntRange(0, 5).Draw(t, "fileEnd") {
+	case 0: // the closing fence is the end of the file
+		c.EndsInFence = true
+	case 1:
+		emit("\n", false)
+	default:
+		if ip := inlineProse(t, true); ip != "" {
+			emit(ip, false)
+			c.Inline = true
+		}
+		emit("\n", false)
+		p, _ = genProse(t)
+		if rapid.IntRange(0, 3).Draw(t, "noFinalNewline") == 0 {
+			p = strings.TrimSuffix(p, "\n")
+		}
+		emit(p, false)
 	}
-	emit("\n", false)
-	p, _ = genProse(t)
-	emit(p, false)
+	c.File = rapid.SampledFrom(mdNames).Draw(t, "fileName")
 	c.MD, c.Code, c.Blocks = md.String(), code.String(), block
 	if rapid.IntRange(0, 4).Draw(t, "crlf") == 0 {
 		// the whole file with CR LF line ends: lines and columns are unchanged
@@ -234,12 +250,19 @@ func checkC19(cx *Ctx, c C19Case) *Failure {
 	type run struct {
 		name, file, content string
 	}
-	runs := []run{{"md", "g.md", c.MD}, {"code", "g.bnf", c.Code}, {"blanked", "g.bnf", blank(c.MD)}}
+	mdFile := c.File
+	if mdFile == "" {
+		mdFile = "g.md"
+	}
+	runs := []run{{"md", mdFile, c.MD}, {"code", "g.bnf", c.Code}, {"blanked", "g.bnf", blank(c.MD)}}
 	var res [3]ex.Result
 	var files [3]map[string][]byte
 	for i, r := range runs {
 		dir, err := cx.Env.Root("c19_" + r.name)
 		if err != nil {
+			return Failf("INFRA: %v", err)
+		}
+		if err := os.MkdirAll(filepath.Dir(filepath.Join(dir, r.file)), 0o755); err != nil {
 			return Failf("INFRA: %v", err)
 		}
 		if err := os.WriteFile(filepath.Join(dir, r.file), []byte(r.content), 0o644); err != nil {
@@ -255,7 +278,7 @@ func checkC19(cx *Ctx, c C19Case) *Failure {
 	}
 	for i := 1; i < 3; i++ {
 		if res[0].Exit != res[i].Exit {
-			return Failf("markdown file:\n%q\nexits %d (%s); its %s form:\n%q\nexits %d (%s)", c.MD, res[0].Exit, tail(res[0].Stdout), runs[i].name, runs[i].content, res[i].Exit, tail(res[i].Stdout))
+			return Failf("markdown file %q:\n%q\nexits %d (%s); its %s form:\n%q\nexits %d (%s)", mdFile, c.MD, res[0].Exit, tail(res[0].Stdout), runs[i].name, runs[i].content, res[i].Exit, tail(res[i].Stdout))
 		}
 		if d := ex.DiffFiles(files[0], files[i]); d != "" {
 			return Failf("markdown file:\n%q\nand its %s form:\n%q\ngenerate different packages: %s", c.MD, runs[i].name, runs[i].content, d)
@@ -290,6 +313,12 @@ func checkC19(cx *Ctx, c C19Case) *Failure {
 	}
 	if c.CRLF {
 		cx.Ev.Class("crlf_line_ends")
+	}
+	if c.EndsInFence {
+		cx.Ev.Class("file_ends_with_the_closing_fence")
+	}
+	if mdFile != "g.md" {
+		cx.Ev.Class("file_name_other_than_g.md")
 	}
 	if c.Blocks >= 2 && c.Rich && (c.ErrLine == 0 || c.ErrBlock > 1) {
 		cx.Ev.NonTrivial(ev.Hash(c.MD), func() any {
